@@ -1,3 +1,109 @@
-import SoxrModel.Cr.Model
+import SoxrModel.Cr.Schedule
+/-!
+# C05 Schedule invariance: streamed, pulled and one-shot output are bit-identical
+
+Model: the constant-rate engine on SAMPLES (`Cr/Data.lean`, `Cr/DataPipe.lean`): FIFOs are lists of an arbitrary
+sample type `α`, every numeric kernel (FIR dot product, DFT block convolution, cubic) is an ARBITRARY function
+`K.eval (stage configuration, phase tags, window)` — so equality of outputs below is equality of whatever the real
+kernels compute (bit patterns included), provided each C kernel is a deterministic function of its window and phase,
+the one fact about kernels this model assumes (the check's falsifier compares FNV hashes of the real output under
+different schedules).  Control (how much each stage consumes and produces, when it runs, every FIFO occupancy, clock
+and `input_size`) is *by construction* the count model's (`dsp_proj`, `dprocLoop_proj`, `DEng.*_proj` below), and the
+count model is tied to `/repo` by the per-call correspondence of `checks/c03.py` / `c05.py`.
+
+Quantifiers: every well-formed plan (`PlanWF`, decidable, evaluated by the driver on every plan the real planner
+exports), every kernel, every input stream, **every** interleaving of input blocks, output requests of any size
+(0 included), end-of-input and calls after it.  `soxr_process`, `soxr_output` with an input function (any supply
+pattern) and `soxr_oneshot` all drive the engine through exactly these operations (`Cr/Model.lean`: `Api.input`,
+`Api.outputNoCb`, `pullLoop`), so they are instances of `DOp` lists.
+-/
 namespace Soxr.Properties.C05
+open Soxr Soxr.Cr
+
+variable {α : Type}
+
+/-- **Prefix consistency.**  Take ANY two runs of a freshly initialised engine over the same input stream `xs` —
+    each accepts a prefix of `xs` (all of it if it has signalled end-of-input) in blocks of any sizes, with output
+    requests of any sizes interleaved in any way.  Then what one has delivered is a prefix of what the other has
+    delivered (or vice versa): the delivered stream is a function of the input stream and the plan only. -/
+theorem prefix_consistency (K : Kern α) (z : α) (owed : Nat → Nat) (plan : Plan) (hwf : PlanWF plan) (xs : List α)
+    (ops₁ ops₂ : List (DOp α)) (F₁ F₂ D₁ D₂ : List α) (e₁ e₂ : DEng α)
+    (r₁ : DRuns K z owed (DEng.fresh z plan) ops₁ F₁ D₁ e₁) (r₂ : DRuns K z owed (DEng.fresh z plan) ops₂ F₂ D₂ e₂)
+    (o₁ : OverStream xs F₁ e₁.fl) (o₂ : OverStream xs F₂ e₂.fl) : D₁ <+: D₂ ∨ D₂ <+: D₁ :=
+  runs_comparable K z owed plan hwf xs ops₁ ops₂ F₁ F₂ D₁ D₂ e₁ e₂ r₁ r₂ o₁ o₂
+
+/-- … in particular two runs that have delivered equally many samples have delivered the same samples. -/
+theorem same_length_same_samples (K : Kern α) (z : α) (owed : Nat → Nat) (plan : Plan) (hwf : PlanWF plan) (xs : List α)
+    (ops₁ ops₂ : List (DOp α)) (F₁ F₂ D₁ D₂ : List α) (e₁ e₂ : DEng α)
+    (r₁ : DRuns K z owed (DEng.fresh z plan) ops₁ F₁ D₁ e₁) (r₂ : DRuns K z owed (DEng.fresh z plan) ops₂ F₂ D₂ e₂)
+    (o₁ : OverStream xs F₁ e₁.fl) (o₂ : OverStream xs F₂ e₂.fl) (hlen : D₁.length = D₂.length) : D₁ = D₂ :=
+  (runs_comparable K z owed plan hwf xs ops₁ ops₂ F₁ F₂ D₁ D₂ e₁ e₂ r₁ r₂ o₁ o₂).eq_of_length hlen
+
+/-- **Schedule invariance.**  Two complete runs over `xs` — any streaming histories `s₁`, `s₂` that accept all of
+    `xs` (never early: C03), end-of-input, then any further calls `t₁`, `t₂` until nothing is owed — deliver exactly
+    the same `owed |xs|` samples. -/
+theorem schedule_invariance (K : Kern α) (z : α) (owed : Nat → Nat) (plan : Plan) (hwf : PlanWF plan) (xs : List α)
+    (s₁ s₂ t₁ t₂ : List (DOp α)) (D₁ D₂ F₁' F₂' D₁' D₂' : List α) (e₁ e₂ e₁' e₂' : DEng α)
+    (n₁ : NoFlush s₁) (n₂ : NoFlush s₂)
+    (r₁ : DRuns K z owed (DEng.fresh z plan) s₁ xs D₁ e₁) (r₂ : DRuns K z owed (DEng.fresh z plan) s₂ xs D₂ e₂)
+    (ne₁ : D₁.length ≤ owed xs.length) (ne₂ : D₂.length ≤ owed xs.length)
+    (d₁ : DRuns K z owed (e₁.flush owed) t₁ F₁' D₁' e₁') (d₂ : DRuns K z owed (e₂.flush owed) t₂ F₂' D₂' e₂')
+    (c₁ : e₁'.sout = 0) (c₂ : e₂'.sout = 0) :
+    D₁ ++ D₁' = D₂ ++ D₂' ∧ (D₁ ++ D₁').length = owed xs.length :=
+  complete_runs_equal K z owed plan hwf xs s₁ s₂ t₁ t₂ D₁ D₂ F₁' F₂' D₁' D₂' e₁ e₂ e₁' e₂' n₁ n₂ r₁ r₂ ne₁ ne₂ d₁ d₂ c₁ c₂
+
+/-- **Every output sample is the canonical function of the input** (engine law E3): at any point of any run, what has
+    been delivered followed by what waits in the output FIFO is the canonical stream of the pipeline for the input
+    accepted so far (zero-extended once flushing), each stage's history being its zero preload followed by the
+    canonical output of the stage below. -/
+theorem delivered_is_canonical (K : Kern α) (z : α) (owed : Nat → Nat) (plan : Plan) (hwf : PlanWF plan)
+    (ops : List (DOp α)) (F D : List α) (e : DEng α) (r : DRuns K z owed (DEng.fresh z plan) ops F D e) :
+    ∃ pad src, IsPad z e.fl pad ∧ PInv K z plan e.stages (F ++ pad) src ∧ D ++ e.out = src := by
+  have := druns_inv K z owed plan ops _ _ _ _ _ _ (fresh_einv K z plan hwf) r
+  simp only [List.nil_append] at this
+  exact this
+
+/-- **The tie.**  Forgetting the samples, the data-level engine *is* the count model that the correspondence check
+    compares with the real code call by call: same stage scheduling, same counts, same clocks. -/
+theorem control_is_the_count_model (K : Kern α) (z : α) :
+    (∀ fl fuel (l : List (DStage α)) done, (dsp K z fl fuel l done).map projRes = sp fl fuel (l.map DStage.toStage) done) ∧
+    (∀ fuel (e : DEng α) olen, (e.process K z fuel olen).map DEng.toEng = e.toEng.process fuel olen) ∧
+    (∀ (e : DEng α) xs, (e.input xs).toEng = e.toEng.input xs.length) ∧
+    (∀ owed (e : DEng α), (e.flush owed).toEng = e.toEng.flush owed) ∧
+    (∀ (e : DEng α) n0, (e.output n0).1.toEng = (e.toEng.output n0).1 ∧
+        ((e.output n0).2.length : Int) = max 0 (e.toEng.output n0).2) :=
+  ⟨fun fl fuel l done => dsp_proj K z fl fuel l done, fun fuel e olen => DEng.process_proj K z fuel e olen,
+   DEng.input_proj, DEng.flush_proj, DEng.output_proj⟩
+
+/-! ## non-vacuity: a concrete plan, kernel and two different schedules -/
+
+/-- a 2:1 half-band stage followed by a 3:2 clocked sampler; the "kernel" adds up its window and tags the phase -/
+def exPlan : Plan :=
+  [ ({ kind := .clocked, prePost := 3, den := 2, step := 3, taps := 4 }, { occ := 1, clk := 1, isz := 8 }),
+    ({ kind := .half, prePost := 4 }, { occ := 2, isz := 8 }) ]
+def exK : Kern Int := { eval := fun c ph _ _ w => w.sum * 10 + ph + (if c.kind = .half then 5 else 0) }
+def exXs : List Int := [1, 2, 3, 4, 5, 6, 7, 8, 9, 10, 11, 12, 13, 14, 15, 16, 17, 18, 19, 20]
+def exOwed : Nat → Nat := fun n => n / 3
+
+example : PlanWF exPlan := by decide
+
+/-- one-shot: everything in one block, one big request after end-of-input -/
+def runOps (ops : List (DOp Int)) : Option (List Int × DEng Int) :=
+  ops.foldl (fun acc op => match acc with
+    | none => none
+    | some (D, e) => match op with
+      | .feed xs => some (D, e.input xs)
+      | .flush => some (D, e.flush exOwed)
+      | .take n => match e.process exK 0 100 n with
+        | none => none
+        | some e1 => some (D ++ (e1.output n).2, (e1.output n).1)) (some ([], DEng.fresh 0 exPlan))
+
+def oneshot : List (DOp Int) := [.feed exXs, .flush, .take 100]
+def chunked : List (DOp Int) :=
+  [.take 3, .feed (exXs.take 7), .take 0, .take 1, .feed ((exXs.drop 7).take 1), .take 5, .feed (exXs.drop 8), .take 2,
+   .flush, .take 1, .take 0, .take 2, .take 100]
+
+example : (runOps oneshot).map (·.1) = (runOps chunked).map (·.1) ∧ ((runOps oneshot).map (·.1.length)) = some (exOwed 20) := by
+  decide
+
 end Soxr.Properties.C05
